@@ -7,6 +7,13 @@ NOTES = ("Model-based verification with explicit TLA+ specifications (spec/*.tla
 
 CHECKS = [
     {
+        "property_id": "C09",
+        "design_ref": "DESIGN.md §4 C09",
+        "technique": "TLA+ model Interp.tla: halving search + window arithmetic vs contract, Lagrange reproduction of the Newton basis proved modulo primes by TLC over every (table, order, query); each state replayed on the real Interp/Ephem",
+        "text": "TLC enumerates every table of 2..13 (thorough 16) nodes (uniform and mildly non-uniform), order 2..12 and every integer query from just below the first node to just above the last; it checks the implementation-shaped _prev_idx and window selection against the contract (exactly `order` consecutive nodes inside the table bracketing the query, centred when possible, refusal outside the table or when the table is shorter than the order) and proves on the specification that the interpolant through that window reproduces all polynomials of degree < order. Replay on the real code: the window actually used is observed through unit-vector data (support of the weights) and the weights compared with the exact rational Lagrange weights; polynomial reproduction, node exactness (4 ulp), linear mode, refusal, and the Ephem.interpolate path (dates as abscissae, frame/form kept, no extrapolation).",
+        "level_note": "Not decided: 'within centimetres for a smooth orbit' (approximation error, numeric). Bit-exact node values in linear mode not demanded. Ephem path compared at 2e-6 relative because dates are MJD floats (0.6 us resolution). Trusted: TLC, modular-arithmetic argument (two 15-bit primes).",
+    },
+    {
         "property_id": "C10",
         "design_ref": "DESIGN.md §4 C10",
         "technique": "TLA+ model Listeners.tla (listen/_bisect on a microsecond grid vs contract) checked by TLC over all sign patterns; real Speaker driven on the same grid and its streams judged by TLC (ListenersTrace.tla); recorded traces of the physical listeners validated by a TLA+ trace specification (PhysListenersTrace.tla)",
@@ -38,5 +45,5 @@ CHECKS = [
 
 _PENDING = "check not built yet in this session (design in DESIGN.md §4); will be claimed once its TLA+ model and conformance harness exist"
 NOT_APPLICABLE = [
-    {"property_id": f"C{i:02d}", "reason": _PENDING} for i in range(1, 20) if i not in (3, 8, 10)
+    {"property_id": f"C{i:02d}", "reason": _PENDING} for i in range(1, 20) if i not in (3, 8, 9, 10)
 ]
